@@ -667,7 +667,107 @@ fn adaptor_cases(_ctx: &Ctx) -> u64 {
     0
 }
 
+
+// ------------------------------------------------ every sample format (scale probe over formats)
+/// All 14 sample formats as mono frames `[S; 1]`, windows 1..=3, every history of length N+2 over
+/// nine structured values (both extremes, equilibrium and its neighbours at distance 1 and 100, the
+/// quarter-scale points). Reference: the exact signed amplitude in f64. Tolerance: the running-sum
+/// algorithm commits at most (N+2) roundings of relative size eps per step, each on a quantity
+/// bounded by N times the largest square seen since construction, so the mean square is within
+/// 4 (t+N) eps max_square of the truth; a quiet history is therefore judged against its own scale.
+const SWEEP_FORMATS: [&str; 14] = ["i8", "u8", "i16", "u16", "I24", "U24", "i32", "u32", "I48", "U48", "i64", "u64", "f32", "f64"];
+fn sweep_letters(bits: u32) -> Vec<i128> {
+    let h = 1i128 << (bits - 1);
+    vec![0, 1, -1, 100.min(h - 1), -100.max(-h), h / 2 + 1, -h / 2, h - 1, -h]
+}
+fn fmt_sweep_case(fmt: usize, n: usize, letters: &[u8]) -> Option<Bad> {
+    macro_rules! run {
+        ($S:ty, $FL:ty, $bits:expr, $mk:expr, $amp:expr) => {{
+            let mk = $mk;
+            let amp = $amp;
+            let eps = <$FL>::EPSILON as f64;
+            let vals: Vec<($S, f64)> = sweep_letters($bits).into_iter().map(|a| { let s: $S = mk(a); (s, amp(a)) }).collect();
+            let mut rms = Rms::<[$S; 1], Vec<[$FL; 1]>>::new(Fixed::from(vec![[0.0 as $FL; 1]; n]));
+            let mut last: VecDeque<f64> = (0..n).map(|_| 0.0).collect();
+            let mut maxsq = 0.0f64;
+            for (t, &l) in letters.iter().enumerate() {
+                let (s, a) = vals[l as usize % vals.len()];
+                last.pop_front();
+                last.push_back(a);
+                maxsq = maxsq.max(a * a);
+                let ms_ref: f64 = last.iter().map(|x| x * x).sum::<f64>() / n as f64;
+                let ms_impl = rms.clone().next_squared([s])[0] as f64;
+                let out = rms.next([s])[0] as f64;
+                let bound = 4.0 * (t + 1 + n) as f64 * eps * maxsq + 1e-300;
+                if !(ms_impl >= 0.0) || (ms_impl - ms_ref).abs() > bound {
+                    return Some(("rms.format".into(), format!("[{};1] N={n} history (signed amplitudes) {:?}: after frame {t} next_squared() = {ms_impl:e}, mean square of the last N frames = {ms_ref:e} (bound {bound:e}, largest square so far {maxsq:e})", SWEEP_FORMATS[fmt], letters.iter().map(|&l| sweep_letters($bits)[l as usize % 9]).collect::<Vec<_>>())));
+                }
+                if !sqrt_ok(out, ms_impl, eps) {
+                    return Some(("rms.format".into(), format!("[{};1] N={n}: after frame {t} next() = {out:e} but next_squared() = {ms_impl:e}", SWEEP_FORMATS[fmt])));
+                }
+            }
+            None
+        }};
+    }
+    use dasp_sample::{I24, I48, U24, U48};
+    match fmt {
+        0 => run!(i8, f32, 8, |a: i128| a as i8, |a: i128| a as f64 / 128.0),
+        1 => run!(u8, f32, 8, |a: i128| (a + 128) as u8, |a: i128| a as f64 / 128.0),
+        2 => run!(i16, f32, 16, |a: i128| a as i16, |a: i128| a as f64 / 32768.0),
+        3 => run!(u16, f32, 16, |a: i128| (a + 32768) as u16, |a: i128| a as f64 / 32768.0),
+        4 => run!(I24, f32, 24, |a: i128| I24::new(a as i32).unwrap(), |a: i128| a as f64 / 8388608.0),
+        5 => run!(U24, f32, 24, |a: i128| U24::new((a + 8388608) as i32).unwrap(), |a: i128| a as f64 / 8388608.0),
+        6 => run!(i32, f32, 32, |a: i128| a as i32, |a: i128| a as f64 / 2147483648.0),
+        7 => run!(u32, f32, 32, |a: i128| (a + 2147483648) as u32, |a: i128| a as f64 / 2147483648.0),
+        8 => run!(I48, f64, 48, |a: i128| I48::new(a as i64).unwrap(), |a: i128| a as f64 / 140737488355328.0),
+        9 => run!(U48, f64, 48, |a: i128| U48::new((a + 140737488355328) as i64).unwrap(), |a: i128| a as f64 / 140737488355328.0),
+        10 => run!(i64, f64, 64, |a: i128| a as i64, |a: i128| a as f64 / 9223372036854775808.0),
+        11 => run!(u64, f64, 64, |a: i128| (a + 9223372036854775808) as u64, |a: i128| a as f64 / 9223372036854775808.0),
+        // floats: the same nine points scaled into [-1, 1] from a 24-bit grid
+        12 => run!(f32, f32, 24, |a: i128| (a as f64 / 8388608.0) as f32, |a: i128| a as f64 / 8388608.0),
+        _ => run!(f64, f64, 24, |a: i128| a as f64 / 8388608.0, |a: i128| a as f64 / 8388608.0),
+    }
+}
+
+fn fmt_sweep(ctx: &Ctx) -> u64 {
+    let mut jobs: Vec<(usize, usize, u8)> = Vec::new();
+    for fmt in 0..14 {
+        for n in 1..=3usize {
+            for first in 0..9u8 {
+                jobs.push((fmt, n, first));
+            }
+        }
+    }
+    let evals = AtomicU64::new(0);
+    jobs.par_iter().for_each(|&(fmt, n, first)| {
+        let len = n + 2;
+        let mut fps = Vec::new();
+        for code in 0..9usize.pow(len as u32 - 1) {
+            let mut letters = vec![first];
+            let mut c = code;
+            for _ in 1..len {
+                letters.push((c % 9) as u8);
+                c /= 9;
+            }
+            let case = json!({"sys":"fmt_sweep","fmt":fmt,"format":SWEEP_FORMATS[fmt],"n":n,"letters":letters});
+            let _guard_scope = guard::scoped(&case.to_string());
+            evals.fetch_add(len as u64, Relaxed);
+            match catch(|| fmt_sweep_case(fmt, n, &letters)) {
+                Ok(None) => fps.push(common::fnv_str(&format!("fs{fmt}/{n}/{letters:?}"))),
+                Ok(Some((k, m))) => ctx.violation(&k, case, m, Some(&|| fmt_sweep_case(fmt, n, &letters).map(|e| e.1))),
+                Err(p) => ctx.violation("rms.panic", case, format!("[{};1] N={n} letters {letters:?}: panicked: {p}", SWEEP_FORMATS[fmt]), None),
+            }
+        }
+        ctx.observe_many(fps);
+    });
+    evals.load(Relaxed)
+}
+
 fn dispatch_replay(v: &Value) -> Option<String> {
+    if v["sys"] == "fmt_sweep" {
+        let letters: Vec<u8> = v["letters"].as_array().map(|a| a.iter().map(|x| x.as_u64().unwrap_or(0) as u8).collect()).unwrap_or_default();
+        return fmt_sweep_case(v["fmt"].as_u64().unwrap_or(0) as usize, v["n"].as_u64().unwrap_or(1) as usize, &letters).map(|e| format!("{}: {}", e.0, e.1));
+    }
     let acts: Vec<Act> = v["actions"].as_array().map(|a| a.iter().filter_map(|x| Act::parse(x.as_str()?)).collect()).unwrap_or_default();
     let n = v["n"].as_u64().unwrap_or(1) as usize;
     let rough = v["alphabet"] == "rough";
@@ -801,6 +901,10 @@ fn main() {
     ctx.set("drift_runs", json!(djobs.len()));
     ctx.set("drift_steps_each", json!(steps));
 
+    let fs = fmt_sweep(ctx);
+    ctx.add_evals(fs);
+    ctx.set("format_sweep_steps", json!(fs));
+    ctx.rule("formats — all 14 sample formats as mono frames, N=1..=3, every history of length N+2 over nine structured values (MIN, MAX, equilibrium, equilibrium +-1 and +-100, the quarter-scale points): mean square within 4(t+N) eps x (largest square seen so far) of the exact-amplitude f64 reference (a quiet history is judged on its own scale), never negative or NaN, next() == sqrt(next_squared()) within the build's sqrt tolerance");
     let sq = sqrt_sweep(ctx, ctx.thorough());
     ctx.add_evals(sq);
     ctx.set("sqrt_sweep_evaluations", json!(sq));
